@@ -78,7 +78,7 @@ CLAIMS = {
     'C20': ('proof', 'PARTIAL. Theorems C20_jit_memory_size / C20_no_std_memory_refusal / C20_no_std_accepts_what_std_allocates / C20_jit_flags_agree over both cfg twins of '
             'JitMemory::new and of every jit_compile (regenerated): same buffer size, same passes, the no_std build refuses caller memory exactly when too short or not '
             'page-aligned, every VM kind compiles with the same prologue flags in both builds; C20_api_effects_agree: the state-changing API methods have the same effect lists in both builds, '
-            'except that the no_std jit_compile takes the caller\'s executable memory, after the check that a program is loaded. The models of C01/C02/C05/C06/C17 are regenerated from source regions checked on every run to contain no code '
+            'except that the no_std jit_compile takes the caller\'s executable memory, after the check that a program is loaded; C20_exec_memory_setter_is_neutral: set_jit_exec_memory (no_std only; every VM kind, regenerated) only stores the caller\'s memory and leaves program, verifier, helpers and compiled code as they are. The models of C01/C02/C05/C06/C17 are regenerated from source regions checked on every run to contain no code '
             'selected by the std feature, so their theorems describe both builds; the rest of the cfg-dependent glue is compared by running a default build and a '
             '--no-default-features build of the harness on the corpora of C01/C03/C06/C13-C15 (JIT from caller-supplied executable memory) and requiring '
             'identical transcripts.',
